@@ -9,6 +9,7 @@ Case lines
               an index is appended only at the current length)
         capture 1: exception_time_series(map_(...)) is wired and observed, also for bodies that never fail
         body 0 add p1 | 1 acc | 2 acc;add p1 | 3 timer d=p1 tagged=p2 | 4 timer;acc | 5 acc;boom p1 (capture = 1)
+             7 boom p1 (stateless: throws whenever its input is p1, so a key fails repeatedly with identical inputs; capture = 1)
              6 nested: the body is map_(y + x, <whole dict 1, passed through>, x) summed over its elements; ndict = 1,
                dict 1 is the passed-through dictionary (its operations always change it); lines 20 21 24 are omitted
         ndict 1|2 multiplexed dictionaries; bcast 1: a broadcast TS<int> second argument (ndict = 1 only)
@@ -47,7 +48,7 @@ def _gen_base(rng, tier):
     quick = tier == "quick"
     start = rng.randint(1, 3)
     ncyc = rng.randint(3, 15 if quick else 40)
-    body = rng.choice([0, 1, 1, 2, 3, 3, 3, 4, 4, 5, 5])
+    body = rng.choice([0, 1, 1, 2, 3, 3, 3, 4, 4, 5, 5, 7, 7])
     p1 = rng.randint(-3, 9) if body in (0, 2) else rng.choice([1, 1, 2, 2, 3, 4, 5, 0]) if body in (3, 4) else 0
     p2 = rng.randint(0, 1) if body in (3, 4) else 0
     mode = rng.random()
@@ -70,6 +71,12 @@ def _gen_base(rng, tier):
     usekey = 1 if rng.random() < 0.5 else 0
     # the error output is wired and observed also in runs in which nothing fails
     capture = 1 if body in (0, 1, 2, 3, 4) and rng.random() < 0.25 else 0
+    if body == 7:
+        # stateless failing body: the SAME key fails again and again with identical inputs (consecutive cycles and
+        # fail / quiet / fail), alone and together with other failing keys; every failing cycle must tick the error entry
+        capture = 1
+        if rng.random() < 0.7:
+            ndict, bcast, shape, usekey = 1, 0, 0, 0
     burst = rng.random() < (0.12 if quick else 0.2)
     nkeys = rng.randint(1, 6) if not burst else rng.randint(9, 70)
     pool = rng.sample(range(1, 90), nkeys) if rng.random() < 0.7 else list(range(1, nkeys + 1))
@@ -144,6 +151,12 @@ def _gen_base(rng, tier):
             case.append([4, t, rng.randint(-9, 60)])
     if bcast and rng.random() < 0.3:
         case.append([4, end - 1 if end - 1 >= start else start, rng.randint(0, 9)])
+    if body == 7:
+        fail = rng.randint(0, 9)
+        case[1][2] = fail
+        for l in case:
+            if l[0] == 3 and l[3] == 1 and l[1] == 0:
+                l[5] = fail if rng.random() < 0.55 else rng.randint(0, 9)
     if body == 5:
         # failing body (errors captured per key): throw when some key's running sum reaches a value it really reaches
         case[1][7] = 1
@@ -163,7 +176,7 @@ def _gen_lists(rng, tier, start, body, p1, p2):
     nl = rng.choice([1, 2, 2, 2])
     bcast = 1 if rng.random() < 0.25 else 0
     usekey = 1 if rng.random() < 0.4 else 0
-    if body == 5:
+    if body in (5, 7):
         body = 1
     ncyc = rng.randint(3, 12 if quick else 30)
     t = start + (0 if rng.random() < 0.6 else rng.randint(1, 2))
@@ -281,7 +294,7 @@ class Inst:
     def __init__(self, h, key):
         self.h, self.key = h, key
         b = h["body"]
-        self.stages = {0: ["add"], 1: ["acc"], 2: ["acc", "add"], 3: ["timer"], 4: ["timer", "acc"], 5: ["acc", "boom"]}.get(b, ["add0"])
+        self.stages = {0: ["add"], 1: ["acc"], 2: ["acc", "add"], 3: ["timer"], 4: ["timer", "acc"], 5: ["acc", "boom"], 7: ["boom"]}.get(b, ["add0"])
         self.km = None
         self.add2 = None
         self.acc = 0
@@ -617,6 +630,17 @@ def stats(case, out):
         st["out_ticks"] = sum((len(l) - 2) // 2 for l in out if l[0] == 32)
         st["removals"] = sum(len(l) - 2 for l in out if l[0] == 31)
         st["captured_errors"] = sum(len(l) - 2 for l in out if l[0] == 37)
+        if h["capture"]:
+            rep = 0
+            for evs in reference(h).values():
+                n = 0
+                for (_, kind, _) in evs:
+                    if kind == "err":
+                        n += 1
+                        rep += int(n == 2)
+                    elif kind == "stop":
+                        n = 0
+            st["keys_failing_repeatedly"] = rep
         ref = reference(h)
         readd = sum(1 for evs in ref.values() if sum(1 for e in evs if e[1] == "start") >= 2)
         st["keys_readded"] = readd
